@@ -229,7 +229,7 @@ func cmdRun(args []string) int {
 			found := false
 			for _, h := range hs {
 				if h.Fn == name || (strings.HasSuffix(name, "*") && strings.HasPrefix(h.Fn, strings.TrimSuffix(name, "*"))) {
-					j := Job{Pkg: h.Pkg, Fn: h.Fn, MaxPaths: h.MaxPaths, QTimeout: h.QTimeout, ShardDepth: h.ShardDepth, ShardN: 1}
+					j := Job{Pkg: h.Pkg, Fn: h.Fn, MaxPaths: h.MaxPaths, MaxSteps: h.MaxSteps, QTimeout: h.QTimeout, ShardDepth: h.ShardDepth, ShardN: 1}
 					if *maxPaths > 0 {
 						j.MaxPaths = *maxPaths
 					}
